@@ -515,6 +515,24 @@ fn config(report: &Report, cli: &Cli, global: &GlobalContext<ArCurve>, n: u8, t:
     let pb = to_bytes(&cdi.proofs);
     let vb = to_bytes(&cdi.values);
     let stride = if cli.tier == Tier::Quick { 11 } else { 1 };
+    // counted parts of the proofs (sharing-coefficient commitments, per-revoker responses, rounds
+    // of the range proof) added / removed
+    let edits = count_field_edits(&pb);
+    edits.par_iter().enumerate().filter(|(i, _)| cli.tier != Tier::Quick || i % 4 == 0).for_each(|(_, (what, eb))| {
+        let mut w = base.clone();
+        w["proofs_structural_edit"] = json!(what);
+        case(report, w, || {
+            let mut all = vb.clone();
+            all.extend_from_slice(eb);
+            if let Ok(x) = from_bytes::<Cdi, _>(&mut &all[..]) {
+                report.trace(1);
+                if to_bytes(&x.proofs) != pb && check_cdi(&s, &x, &new_acc) {
+                    return fail("altered-credential-verifies", json!({"what": what}));
+                }
+            }
+            Ok(())
+        });
+    });
     (0..pb.len() * 8).into_par_iter().filter(|b| b % stride == 0).for_each(|bit| {
         let mut w = base.clone();
         w["proofs_bit_flip"] = json!(bit);
